@@ -264,6 +264,17 @@ func c07Roots() []c07Root {
 	for _, m := range allMethods {
 		out = append(out, c07Root{m + "/odd-ids", oddIdsRequest(m)}, c07Root{m + "/5-criteria-6-alternatives", bigRequest(m)})
 	}
+	// generated aspiration-level series (their bias listeners are wired separately in main.go)
+	out = append(out,
+		c07Root{"aspectEliminationHeuristic/idealAdditive", withMP(rootRequest("aspectEliminationHeuristic", true, false), M{"function": "idealAdditiveCoefficient", "params": M{"coefficient": 0.25, "minValue": 0.0, "maxValue": 1.0}})},
+		c07Root{"aspectEliminationHeuristic/idealMultiplied", withMP(rootRequest("aspectEliminationHeuristic", true, false), M{"function": "idealMultipliedCoefficient", "params": M{"coefficient": 0.5, "minValue": 0.25, "maxValue": 1.0}})},
+		c07Root{"satisfactionHeuristic/idealSubtractive", withMP(rootRequest("satisfactionHeuristic", true, false), M{"function": "idealSubtractiveCoefficient", "params": M{"coefficient": 0.25, "minValue": 0.25, "maxValue": 1.0}})},
+		c07Root{"satisfactionHeuristic/idealMultiplied", withMP(rootRequest("satisfactionHeuristic", true, false), M{"function": "idealMultipliedCoefficient", "params": M{"coefficient": 0.5, "minValue": 0.125, "maxValue": 1.0}})},
+	)
+	for _, m := range []string{"majorityHeuristic", "satisfactionHeuristic"} {
+		out = append(out, c07Root{m + "/odd-ids/currentChoice=whitespace-only-id", withMP(oddIdsRequest(m), M{"currentChoice": " "})},
+			c07Root{m + "/odd-ids/currentChoice=leading-space-id", withMP(oddIdsRequest(m), M{"currentChoice": " a"})})
+	}
 	// heuristics with a current choice inside / outside choseToMake (the current choice must survive every bias)
 	for _, m := range []string{"majorityHeuristic", "satisfactionHeuristic"} {
 		for _, cc := range []string{"a", "c"} {
